@@ -482,7 +482,7 @@ MUTANTS = [
     dict(name="spend-type-without-annex", file="script/interpreter.cpp", find="const uint8_t spend_type = (ext_flag << 1) + (have_annex ? 1 : 0);", replace="const uint8_t spend_type = (ext_flag << 1);", expect=["R02.3:table:spend_type"]),
     dict(name="hashtype-84-valid", file="script/interpreter.cpp", find="if (!(hash_type <= 0x03 || (hash_type >= 0x81 && hash_type <= 0x83))) return false;", replace="if (!(hash_type <= 0x03 || (hash_type >= 0x81 && hash_type <= 0x84))) return false;", expect=["R02.3:table:valid-hash-types"]),
     dict(name="bip143-mask-3", file="script/interpreter.cpp", find="        if (!(nHashType & SIGHASH_ANYONECANPAY) && (nHashType & 0x1f) != SIGHASH_SINGLE && (nHashType & 0x1f) != SIGHASH_NONE) {", replace="        if (!(nHashType & SIGHASH_ANYONECANPAY) && (nHashType & SIGHASH_OUTPUT_MASK) != SIGHASH_SINGLE && (nHashType & SIGHASH_OUTPUT_MASK) != SIGHASH_NONE) {", expect=["R02.3:table:bip143-subhash-selection"]),
-    dict(name="bip143-amount-before-script", file="script/interpreter.cpp", find="        ss << scriptCode;\n        ss << amount;", replace="        ss << amount;\n        ss << scriptCode;", expect=["R02.3:bip143-field-order"]),
+    dict(name="bip143-amount-before-script", file="script/interpreter.cpp", find="        ss << scriptCode;\n        btc_sighash_logf(\" << scriptCode\\n\");\n        ss << amount;", replace="        ss << amount;\n        btc_sighash_logf(\" << scriptCode\\n\");\n        ss << scriptCode;", expect=["R02.3:bip143-field-order"]),
     dict(name="legacy-flag-mask-3", file="script/interpreter.cpp", find="fHashSingle((nHashTypeIn & 0x1f) == SIGHASH_SINGLE),", replace="fHashSingle((nHashTypeIn & SIGHASH_OUTPUT_MASK) == SIGHASH_SINGLE),", expect=["R02.3:table:legacy-flags"]),
     dict(name="sequences-helper-hashes-prevouts", file="script/interpreter.cpp", find="        ss << txin.nSequence;\n    }\n    return ss.GetSHA256();", replace="        ss << txin.prevout;\n    }\n    return ss.GetSHA256();", expect=["R02.3:helper=GetSequencesSHA256"]),
     dict(name="binding-swapped", file="script/interpreter.cpp", find="        m_sequences_single_hash = GetSequencesSHA256(txTo);\n        m_outputs_single_hash = GetOutputsSHA256(txTo);", replace="        m_sequences_single_hash = GetOutputsSHA256(txTo);\n        m_outputs_single_hash = GetSequencesSHA256(txTo);", expect=["R02.3:binding=m_sequences_single_hash"]),
